@@ -327,6 +327,7 @@ impl Engine for C13 {
                     app_date_fmt: 0,
                     net_faults: run.net_faults.clone(),
                     server_today: None,
+                    clock_tz: None,
                     fs_faults: dry_faults,
                     knobs: Knobs { max_write: sc.max_write, max_read: sc.max_read, eintr_every: sc.eintr_every },
                     hash_seed: run.hash_seed,
@@ -355,6 +356,7 @@ impl Engine for C13 {
                 app_date_fmt: 0,
                 net_faults: run.net_faults.clone(),
                 server_today: None,
+                clock_tz: None,
                 fs_faults: fs_faults.clone(),
                 knobs: Knobs { max_write: sc.max_write, max_read: sc.max_read, eintr_every: sc.eintr_every },
                 hash_seed: run.hash_seed,
